@@ -19,6 +19,9 @@ pub struct DropCase {
     /// after which read attempts (0-based; completed or dropped) the application issues a write of its own
     /// (TINY ping, reqi = attempt+1), as the timer branch of a select! loop does
     pub user_writes: BTreeSet<usize>,
+    /// the application's own writes are TINY_NONE with request id 0 (the very frame the connection uses as its keep-alive
+    /// reply) instead of pings
+    pub user_none: bool,
 }
 
 pub struct Outcome {
@@ -100,11 +103,15 @@ pub fn drive(c: &DropCase, with_drops: bool) -> Outcome {
                 }
                 // the application writes something of its own between reads (as a select loop with a timer does)
                 if c.user_writes.contains(&attempt) {
-                    let p = insim::insim::Tiny { reqi: insim::identifiers::RequestId((attempt + 1) as u8), subt: insim::insim::TinyType::Ping };
+                    let p = if c.user_none {
+                        insim::insim::Tiny { reqi: insim::identifiers::RequestId(0), subt: insim::insim::TinyType::None }
+                    } else {
+                        insim::insim::Tiny { reqi: insim::identifiers::RequestId((attempt + 1) as u8), subt: insim::insim::TinyType::Ping }
+                    };
                     let w = framed.write(p).await;
                     t2.push_event(Event::WriteReturned(format!("{:?}", w.is_ok())));
                     if w.is_ok() {
-                        user_frames.push(user_frame(&mode, attempt));
+                        user_frames.push(if c.user_none { vec![size_byte(&mode, 4), 3, 0, 0] } else { user_frame(&mode, attempt) });
                         if was_dropped {
                             writes_after_drop += 1;
                         }
@@ -174,9 +181,11 @@ pub fn judge(c: &DropCase, ev: &mut Local) -> Result<(), Fail> {
     };
     let reply = vec![size_byte(&mode, 4), 3, 0, 0];
     let replies = frames.iter().filter(|f| **f == reply).count();
-    ensure!(replies == keepalives, "c19:keepalive-replies", "{keepalives} keep-alives delivered, {replies} replies on the wire: {}", hex(&got.written));
+    // when the application itself writes TINY_NONE frames they are indistinguishable from replies on the wire: the total counts
+    let own_none = if c.user_none { got.user_frames.len() } else { 0 };
+    ensure!(replies == keepalives + own_none, "c19:keepalive-replies", "{keepalives} keep-alives delivered and {own_none} TINY_NONE written by the application, {replies} such frames on the wire: {}", hex(&got.written));
     let users: Vec<&Vec<u8>> = frames.iter().filter(|f| **f != reply).collect();
-    let expected_users: Vec<Vec<u8>> = got.user_frames.clone();
+    let expected_users: Vec<Vec<u8>> = if c.user_none { vec![] } else { got.user_frames.clone() };
     ensure!(
         users.len() == expected_users.len() && users.iter().zip(expected_users.iter()).all(|(a, b)| **a == *b),
         "c19:user-frame-damaged",
@@ -204,13 +213,14 @@ pub fn judge(c: &DropCase, ev: &mut Local) -> Result<(), Fail> {
 }
 
 fn case_json(c: &DropCase) -> Value {
-    json!({"session": session_json(&c.session), "drop_at_polls": c.drops.iter().collect::<Vec<_>>(), "user_write_after_results": c.user_writes.iter().collect::<Vec<_>>()})
+    json!({"session": session_json(&c.session), "drop_at_polls": c.drops.iter().collect::<Vec<_>>(), "user_write_after_results": c.user_writes.iter().collect::<Vec<_>>(), "user_writes_tiny_none": c.user_none})
 }
 fn case_from(v: &Value) -> Option<DropCase> {
     Some(DropCase {
         session: session_from(v.get("session")?)?,
         drops: v.get("drop_at_polls")?.as_array()?.iter().filter_map(|x| x.as_u64().map(|x| x as usize)).collect(),
         user_writes: v.get("user_write_after_results")?.as_array()?.iter().filter_map(|x| x.as_u64().map(|x| x as usize)).collect(),
+        user_none: v.get("user_writes_tiny_none").and_then(|x| x.as_bool()).unwrap_or(false),
     })
 }
 
@@ -277,12 +287,21 @@ impl Part for SmallExhaustive {
         let mode = if c.compressed { Mode::Compressed } else { Mode::Uncompressed };
         let (steps, writes) = small_script(c.script, &mode);
         let drops: BTreeSet<usize> = (0..SMALL_POLLS).filter(|i| c.mask >> i & 1 == 1).map(|i| i + 1).collect();
-        let dc = DropCase {
+        let mut dc = DropCase {
             session: SessionCase { compressed: c.compressed, verify: false, steps, writes, label: format!("small script {}", c.script) },
             drops,
             user_writes: (0..SMALL_WRITES).filter(|i| c.mask >> (SMALL_POLLS + i) & 1 == 1).collect(),
+            user_none: false,
         };
-        judge(&dc, ev)
+        judge(&dc, ev)?;
+        if dc.user_writes.is_empty() {
+            return Ok(());
+        }
+        // the same schedule with the application writing TINY_NONE frames of its own
+        dc.user_none = true;
+        let mut scratch = Local::new();
+        scratch.frozen = true;
+        judge(&dc, &mut scratch)
     }
     fn to_json(&self, c: &SmallCase) -> Value {
         json!({"script": c.script, "compressed": c.compressed, "drop_mask": c.mask})
@@ -551,7 +570,8 @@ pub fn drop_case_strategy() -> impl Strategy<Value = DropCase> {
                 s.steps.insert(k, p);
             }
             s.writes = writes;
-            DropCase { session: s, drops, user_writes }
+            let user_none = s.steps.len() % 3 == 0;
+            DropCase { session: s, drops, user_writes, user_none }
         })
 }
 
@@ -575,7 +595,8 @@ pub fn burst_strategy() -> impl Strategy<Value = DropCase> {
             at.dedup();
             let steps: Vec<ReadStep> = at.windows(2).map(|w| ReadStep::Data(stream[w[0]..w[1]].to_vec())).collect();
             let session = SessionCase { compressed, verify: false, steps, writes, label: "burst".into() };
-            DropCase { session, drops: (1..=4000usize).collect(), user_writes }
+            let user_none = user_writes.len() % 2 == 1;
+            DropCase { session, drops: (1..=4000usize).collect(), user_writes, user_none }
         })
 }
 
@@ -586,7 +607,7 @@ pub fn parts() -> Vec<Box<dyn DynPart>> {
 pub fn run(run: &mut Run) {
     run.rule = "The harness owns the schedule: a tokio connection over a scripted transport (read half: Pending / Ready with any \
         segmentation; write half: Pending / piecewise acceptance) is polled by hand on a paused-clock runtime, and at chosen poll indices \
-        a Pending read future is dropped and a fresh read started; optionally the application writes a frame of its own between reads. \
+        a Pending read future is dropped and a fresh read started; optionally the application writes a frame of its own between reads (a ping, or a TINY_NONE - the very frame the connection uses as its reply). \
         Oracle: the delivered results equal those of the same script without drops (which itself must equal the C05 model); the \
         outgoing byte stream consists of whole frames, exactly one TINY_NONE per delivered keep-alive, application frames intact and in \
         order. Complete: every subset of the first 13 poll indices x every subset of application writes after the first 4 read attempts, for three small scripts x 2 modes; generated: sessions of all packet \
